@@ -176,6 +176,8 @@ MUTANTS = [
     ("lu_factor_path_rhs", "bempp_cl/api/linalg/direct_solvers.py", "        vec = b.projections(A.dual_to_range)\n", "        vec = b.coefficients\n", 0, ["C15"]),
     ("lu_blocked_spaces", "bempp_cl/api/linalg/direct_solvers.py", "return grid_function_list_from_coefficients(sol, A.domain_spaces)", "return grid_function_list_from_coefficients(sol, A.range_spaces)", 0, ["C15"]),
     ("export_element_source", "bempp_cl/api/grid/io.py", "data = _transform_array(grid_function.evaluate_on_element_centers(), transformation).T", "data = _transform_array(grid_function.evaluate_on_vertices(), transformation).T", 0, ["C19"]),
+    ("transform_abs_of_sum", "bempp_cl/api/grid/io.py", "res = _np.sum(_np.abs(a) ** 2, axis=0, keepdims=True)", "res = _np.abs(_np.sum(a**2, axis=0, keepdims=True))", 0, ["C19"]),
+    ("transform_imag_is_real", "bempp_cl/api/grid/io.py", "        res = _np.imag(a)", "        res = _np.real(a)", 0, ["C19"]),
     ("export_complex_cell_block", "bempp_cl/api/grid/io.py", 'cell_data["imag"] = _np.array([_np.imag(data)])', 'cell_data["imag"] = _np.imag(data)', 0, ["C19"]),
     ("export_physical_tag", "bempp_cl/api/grid/io.py", 'cell_data["gmsh:physical"] = grid.domain_indices.astype("int32").reshape((1, -1))', 'cell_data["gmsh:physical"] = geom_indices.reshape((1, -1))', 0, ["C19"]),
     ("dense_reads_global", "bempp_cl/core/numba_assemblers.py", "    order = parameters.quadrature.regular\n    quad_points, quad_weights = rule(order)\n\n    # Perform Numba assembly always in double precision", "    import bempp_cl.api\n\n    order = bempp_cl.api.GLOBAL_PARAMETERS.quadrature.regular\n    quad_points, quad_weights = rule(order)\n\n    # Perform Numba assembly always in double precision", 0, ["C18", "C01"]),
@@ -254,6 +256,8 @@ EQUIVALENTS = [
     ("eq_boundary_loop_spelling", "bempp_cl/api/grid/grid.py", "        for boundary_edge_index in _np.flatnonzero(arr1):\n            arr0[self.edges[:, boundary_edge_index]] = True", "        for e in _np.argwhere(arr1).flatten():\n            arr0[self.edges[:, e]] = True", 0, ["C11"]),
     ("eq_filter_where", "bempp_cl/api/grid/grid.py", "filtered_indices = _np.argwhere(nvertices == filter_type).flatten()", "filtered_indices = _np.where(filter_type == nvertices)[0]", 0, ["C11"]),
     ("eq_edge_adj_rename", "bempp_cl/api/grid/grid.py", "        index_pairs = _get_shared_edge_information_for_two_elements(elements, elem0, elem1)\n        adjacency[0, index] = elem0\n        adjacency[1, index] = elem1\n        adjacency[2:, index] = index_pairs.flatten()", "        pairs = _get_shared_edge_information_for_two_elements(elements, elem0, elem1)\n        adjacency[2:, index] = pairs.flatten()\n        adjacency[1, index] = elem1\n        adjacency[0, index] = elem0", 0, ["C11", "C01", "C03"]),
+    ("eq_transform_spelling", "bempp_cl/api/grid/io.py", "        res = _np.sqrt(_np.sum(_np.abs(a) ** 2, axis=0, keepdims=True))\n    elif mode == \"abs_squared\":\n        res = _np.sum(_np.abs(a) ** 2, axis=0, keepdims=True)",
+     "        res = _np.linalg.norm(a, axis=0, keepdims=True)\n    elif mode == \"abs_squared\":\n        res = _np.real(_np.sum(a * _np.conj(a), axis=0, keepdims=True))", 0, ["C19"]),
     ("eq_export_rename", "bempp_cl/api/grid/io.py", "            data = _transform_array(grid_function.evaluate_on_vertices(), transformation).T\n            if _np.iscomplexobj(data):\n                point_data = {\"real\": _np.real(data), \"imag\": _np.imag(data)}", "            vals = grid_function.evaluate_on_vertices()\n            data = _transform_array(vals, transformation).T\n            if _np.iscomplexobj(data):\n                point_data = {\"imag\": _np.imag(data), \"real\": _np.real(data)}", 0, ["C19"]),
     ("eq_solver_temp", "bempp_cl/api/linalg/direct_solvers.py", "        vec = b.projections(A.dual_to_range)\n", "        dual = A.dual_to_range\n        vec = b.projections(dual)\n", 0, ["C15"]),
     ("eq_gmres_rename", "bempp_cl/api/linalg/iterative_solvers.py", "        A_op = A.strong_form()\n        b_vec = b.coefficients\n    else:\n        A_op = A.weak_form()\n        b_vec = b.projections(A.dual_to_range)\n\n    callback = IterationCounter(return_residuals)\n\n    bempp_cl.api.log(\"Starting GMRES iteration\")\n    start_time = time.time()\n    x, info = scipy.sparse.linalg.gmres(A_op, b_vec, rtol=tol, restart=restart, maxiter=maxiter, callback=callback)",
